@@ -482,3 +482,34 @@ pub fn c05_string_path_streams() -> Phase {
         wall_cap_s: 0,
     }
 }
+
+/// Every one-codeword ECI designator (ECI 0..126, supported by the crate today or not) followed by every
+/// output byte 0x00..0xFF (ASCII codeword, or upper shift for the high half), straight and behind a macro head:
+/// the charset conversion tables of decode_str, byte by byte.
+pub fn c05_eci_charset_bytes() -> Phase {
+    let total: u64 = 127 * 256 * 2;
+    let make = move |_ctx: &Ctx, i: u64| -> Trace {
+        let macro_head = i % 2 == 1;
+        let r = i / 2;
+        let byte = (r % 256) as u8;
+        let eci = (r / 256) as u8; // 0..=126
+        let mut data: Vec<u8> = Vec::new();
+        if macro_head {
+            data.push(236);
+        }
+        data.push(241);
+        data.push(eci + 1);
+        if byte < 128 {
+            data.push(byte + 1);
+        } else {
+            data.push(235);
+            data.push(byte - 127);
+        }
+        Trace { prop: "C05".into(), producer: Producer::Stream { data }, faults: vec![] }
+    };
+    Phase {
+        source: Source::Sweep { name: "sweep_every_eci_x_every_byte".into(), prop: "C05".into(), make: Box::new(make) },
+        runs: total,
+        wall_cap_s: 0,
+    }
+}
